@@ -64,13 +64,15 @@ impl Compiler {
     /// meaning, applied to (the variable's local slot, a constant slot holding const_value) - or nothing at all
     /// is appended and an error tells the caller to use the generic sequence.
     fn compile_const_var_infix_expression(&mut self, varname: &str, const_value: isize, operator: &Operator) -> (r: Result<(), Error>)
+        requires sym_wf(old(self).symbols)
         ensures
+            sym_same(final(self).symbols, old(self).symbols),
             //@VACUITY
             r is Err ==> final(self).instructions@ == old(self).instructions@ && final(self).last_instruction == old(self).last_instruction,
             r is Ok ==> fused_emitted(*old(self), *final(self), varname@, const_value as int, operator_sem(*operator)),
             sym_resolve(old(self).symbols, varname@) is None ==> r is Err,
             gen_inv(*old(self)) ==> gen_inv(*final(self)),
-            final(self).symbols == old(self).symbols, final(self).loop_contexts == old(self).loop_contexts, final(self).log@ == old(self).log@,
+            sym_same(final(self).symbols, old(self).symbols), final(self).loop_contexts == old(self).loop_contexts, final(self).log@ == old(self).log@,
             old(self).constants@.len() <= final(self).constants@.len(),
             forall|i: int| 0 <= i < old(self).constants@.len() ==> final(self).constants@[i] == old(self).constants@[i],
     {
@@ -106,6 +108,7 @@ impl Compiler {
         requires gen_inv(*old(self)), operator_sem(*operator) != op_none()
         ensures
             //@VACUITY
+            sym_wf(final(self).symbols),
             r is Ok ==> ({
                 let fused_lr = match (**left, **right) {
                     (Expr::Identifier(name), Expr::Int { value }) => fused_emitted(*old(self), *final(self), name@, value as int, operator_sem(*operator)),
